@@ -86,6 +86,7 @@ def run(tier, seed):
     extra += [(sp, dict(o, resume_from=k, resume_via_json=how)) for sp, o in its[:: (17 if tier == "quick" else 5)] for k in (1, 2) for how in (True, "same")]
     col.merge(stepcheck.explore(extra, MONS, 0, 0, seed=seed))
     col.merge(stepcheck.explore(F.scale_items(("TSLACK", "LPT", "FIFO")), MONS, 0, 0, seed=seed))  # medium-sized models (10-14 tasks / workers / machines), long absence lists
+    col.merge(stepcheck.explore(F.extra_items(("TSLACK", "LPT", "FIFO"), calendars=True), MONS, 0, 0, seed=seed))  # other ways of building the object graph; continuations under a revised calendar
     meta = {
         "level": "model_checking",
         "rule": "every 3-task workflow over the four dependency kinds x work vectors and 4 parallel tasks x pooled/solo/mixed/dedicated/two-team layouts x task rules, "
